@@ -225,6 +225,9 @@ def check(model, rep):
     check_condition(model, rep)
     check_ops(model, rep)
     check_sensors(model, rep)
+    # the five operators are thin wrappers over the comparison dunders of the quantity classes (threshold "in any unit")
+    from checks.solver_common import absorb_cmp
+    absorb_cmp(model, rep, 'C16.dep.cmp', sorted({k for _, k in SENSORS.values()}))
     rep.require('C16.place', 3)
     rep.require('C16.check', 4)
     rep.require('C16.ops', 10)
